@@ -37,6 +37,10 @@ CHECKS = {
          "Exploration: the ordered sequence of (marker, arguments) host calls of each generated program equals the sequence obtained by left-to-right, short-circuit, guard-order evaluation in the reference interpreter.",
          "Trusts the reference interpreter's evaluation order, written from the property statement.",
          "DESIGN.md §4 C08"),
+ "C15": ("model-based stateful testing: operation histories (one chunk per operation, shrunk as a sequence) over aliased list handles, issued through the Rust List API or compiled script functions, compared step by step with a shared-vector model; tracked element accounting",
+         "Exploration: random histories of up to 60 operations for 8 element types incl. zero-sized and drop-tracked ones; every result, the operands of concat and the number of live tracked elements are compared with the model after each step.",
+         "Single-threaded; capacity only checked as >= len; Rust-side contains/index on transformed element types excluded while C15-F2 is open.",
+         "DESIGN.md §4 C15"),
  "C20": ("generated non-recursive programs; differential between the LIR evaluator (hook verif_eval) and the JIT code built from the same lowered IR; evaluator panics accepted as 'stops loudly'",
          "Exploration / differential: evaluator and compiled code start from the same lowered IR; whenever the evaluator completes, return value and host-call log must match the compiled code.",
          "About half of the generated programs make the evaluator stop loudly (unsupported features); reported in evidence classes.",
